@@ -143,6 +143,9 @@ func init() {
 		Bounds: "Send from a 3-owner multisig account; weights and threshold full uint32, each of <= 2 signatures is any owner or a stranger (duplicates included)"}
 	msig3 := HSpec{Pkg: txPkg, Func: "VerifHarness_Multisig_Send", Configs: []map[string]int64{cfg("nsig", 3, "concretePrices", 1)}, Bounds: "as above with 3 signatures"}
 	add("C05", txAssumptions, tier("quick", msig)...)
+	// the multisig branch has its own nonce gate and replay behaviour
+	add("C04", txAssumptions, tier("quick", msig)...)
+	add("C26", txAssumptions, tier("quick", msig)...)
 	add("C05", txAssumptions, tier("thorough", msig3)...)
 	add("C07", txAssumptions, tier("thorough", msig)...)
 	mint := HSpec{Pkg: txPkg, Func: "VerifHarness_MintToken_Deliver", Configs: []map[string]int64{
@@ -177,6 +180,16 @@ func init() {
 		add(id, blockAssumptions, tier("quick", payByz)...)
 		add(id, blockAssumptions, tier("thorough", pay)...)
 	}
+
+	add("C07", blockAssumptions, HSpec{Pkg: minterPkg, Func: "VerifHarness_Block_MoveTargetGone", Tier: "quick",
+		Bounds: "one BeginBlock at the maturity height of a stake move whose target candidate was deleted one block earlier; amounts symbolic (open finding F5b)"})
+
+	// ---------------------------------------------------------- C28 price rule
+	add("C28", append([]string{
+		"price rule: one AppDB.UpdatePriceFix step from a stored previous price with concrete previous reserves (3.5e9 BIP / 1e7 USDT) and one concrete new reserve, the other new reserve, the previous validators' reward and the off flag arbitrary; 350*p^(1/4) enters through math.Pow as an uninterpreted function (its accuracy is C12's open part); the -10% decision is compared with the integer predicate 100*r1*R0 < 91*r0*R1",
+		"the time window of BeginBlock that triggers the update (first block of a stake period, 12:00-14:59, more than 3 hours after the last one) is not harnessed",
+	}, commonAssumptions...), HSpec{Pkg: appdbPkg, Func: "VerifHarness_C28_UpdatePrice", Tier: "quick", Configs: []map[string]int64{cfg("off", 0), cfg("off", 1), cfg("off", 0, "symbolicR0", 1), cfg("off", 1, "symbolicR0", 1)},
+		Bounds: "one price update; new USDT (or BIP) reserve and previous reward unbounded"})
 
 	// ---------------------------------------------------------- C09 app DB
 	add("C09", append([]string{
@@ -302,6 +315,24 @@ func init() {
 		HSpec{Pkg: swapPkg, Func: "VerifHarness_C13_SellWithOrders", Tier: "quick", Configs: []map[string]int64{cfg("orders", 0), cfg("orders", 1)}, Bounds: "concrete pool 10000/10000 BIP and concrete resting orders; taker amount symbolic in (0, 100000 BIP]"},
 		HSpec{Pkg: swapPkg, Func: "VerifHarness_C13_SellWithOrders", Tier: "thorough", Configs: []map[string]int64{cfg("orders", 2)}, Bounds: "as above with two order levels"})
 
+	// ---------------------------------------------------------- C16 transaction side (Unbond, MoveStake, Lock, Delegate)
+	{
+		sa := append([]string{
+			"staking extension of the transaction universe: candidates P and Q (owner B, online, own stakes 5000 BIP), A holds a base-coin stake of symbolic size in P (or the same amount on P's waitlist); the ledger oracle also sums stakes, pending updates, waitlists and the frozen funds at the heights a transaction can write to",
+			"Lock: the due block is one of four concrete heights around the current one; MoveStake: the target is Q, P itself or a key that is no candidate; LockStake itself (a block-height gated type) is represented by an arbitrary lock-until height on the account",
+			"custom-coin stakes are outside the registered bound",
+		}, txAssumptions...)
+		sc := func(kv ...interface{}) map[string]int64 { return cfg(append([]interface{}{"concretePrices", 1}, kv...)...) }
+		stq := HSpec{Pkg: txPkg, Func: "VerifHarness_Stake_Deliver", Tier: "quick", Configs: []map[string]int64{sc("kind", 0), sc("kind", 1), sc("kind", 2), sc("kind", 3), sc("kind", 4), sc("kind", 0, "waitlisted", 1)},
+			Bounds: "one CheckTx+DeliverTx of Unbond / MoveStake / Lock / Delegate / Unbond-under-LockStake by A; value, stake, balances symbolic"}
+		stt := HSpec{Pkg: txPkg, Func: "VerifHarness_Stake_Deliver", Tier: "thorough", Configs: []map[string]int64{sc("kind", 1, "waitlisted", 1), cfg("kind", 0), cfg("kind", 1), cfg("kind", 3)},
+			Bounds: "waitlisted move; symbolic price table"}
+		for _, id := range []string{"C16", "C01", "C02", "C03", "C05", "C06", "C07"} {
+			add(id, sa, stq)
+		}
+		add("C16", sa, stt)
+	}
+
 	// ---------------------------------------------------------- C17 validator set
 	{
 		c17a := append([]string{
@@ -353,7 +384,18 @@ func init() {
 			Bounds: "one CheckTx+DeliverTx of SellSwapPool token->base; amount to sell and minimum symbolic"}
 		sellT := HSpec{Pkg: txPkg, Func: "VerifHarness_SellPool_Deliver", Tier: "thorough", Configs: []map[string]int64{pp("gasCoin", 0, "reverse", 1), pp("gasCoin", 2, "reverse", 1)},
 			Bounds: "base->token"}
-		add("C15", c15a, bancorQ, bancorT, buyQ, sellQ, sellT)
+		route5 := HSpec{Pkg: txPkg, Func: "VerifHarness_SellAllPool_Deliver", Tier: "quick", Configs: []map[string]int64{
+			pp("route5", 1, "concreteBalA", 1, "gasCoinField", 0)},
+			Bounds: "SellAllSwapPool over the cyclic 5-coin route token->X->Y->token->base (4 concrete pools, the commission pool is the last hop); sender balances concrete, minimum to buy and the other accounts symbolic"}
+		add("C15", c15a, bancorQ, bancorT, buyQ, sellQ, sellT, route5)
+		// the bancor coin also has a pool with the base coin: the commission is paid
+		// through whichever of reserve and pool is cheaper
+		bancorPool := HSpec{Pkg: txPkg, Func: "VerifHarness_Bancor_Deliver", Tier: "quick", Configs: []map[string]int64{
+			cp("kind", 1, "gasCoin", 1, "reverse", 1, "pool10", 1, "concretePool", 1), cp("kind", 0, "gasCoin", 1, "pool10", 1, "concretePool", 1)},
+			Bounds: "BuyCoin / SellCoin of the bancor coin paid in that coin while it also has a (concrete) pool with the base coin"}
+		for _, id := range []string{"C01", "C02", "C03", "C15", "C27"} {
+			add(id, c15a, bancorPool)
+		}
 		for _, id := range []string{"C01", "C02", "C03", "C05", "C06", "C07"} {
 			add(id, c15a, buyQ)
 			b := bancorQ
@@ -383,6 +425,29 @@ func init() {
 				Bounds: "up to 3 resting orders (two at one price), committed or not, inserted in or against priority order"})
 		add("C07", c14a, HSpec{Pkg: "coreV2/state", Func: "VerifHarness_C14_FillThenClose", Tier: "quick", Configs: []map[string]int64{oc("orders", 2, "commit", 1, "close", 0)},
 			Bounds: "2 resting orders; taker amount symbolic; no panic"})
+	}
+
+	// ---------------------------------------------------------- RemoveLimitOrder (C14 owner gate / refund, C06, C05)
+	{
+		oa := append([]string{
+			"orders extension of the transaction universe: two committed resting orders in pool (token, base) with concrete volumes (A's small order at a price better than the pool's, B's far from it); the ledger oracle counts their escrow; a failure fee converted through a pool with orders may pay order owners (increase only)",
+		}, txAssumptions...)
+		op := func(kv ...interface{}) map[string]int64 {
+			return cfg(append([]interface{}{"pool20", 1, "concretePool", 1, "concretePrices", 1}, kv...)...)
+		}
+		roQ := HSpec{Pkg: txPkg, Func: "VerifHarness_RemoveOrder_Deliver", Tier: "quick", Configs: []map[string]int64{op("gasCoin", 0, "order", 0), op("gasCoin", 0, "order", 0, "signerB", 1), op("gasCoin", 0, "order", 1, "signerB", 1)},
+			Bounds: "one CheckTx+DeliverTx of RemoveLimitOrder by the owner or by another account, fee in the base coin, then a second cancellation"}
+		roPool := HSpec{Pkg: txPkg, Func: "VerifHarness_RemoveOrder_Deliver", Tier: "quick", Configs: []map[string]int64{op("gasCoin", 2, "order", 0)},
+			Bounds: "as above with the fee paid in the token: the commission swap goes through the order's own pool and fills the order"}
+		for _, id := range []string{"C14", "C05", "C01", "C02", "C03"} {
+			add(id, oa, roQ)
+			t := roPool
+			t.Tier = "thorough"
+			add(id, oa, t)
+		}
+		for _, id := range []string{"C06", "C07"} {
+			add(id, oa, roQ, roPool)
+		}
 	}
 
 	// ---------------------------------------------------------- C11 export / import, C21 checks
